@@ -58,14 +58,18 @@ def and_(a, b):
 
 
 def or_(a, b):
+    """bitwise OR: where both bits are non-constant-zero the result is an opaque ('or', {x, y}) atom (canonical, so two
+    expressions OR-ing the same pair of bits normalise identically)"""
     out = []
     for x, y in zip(a, b):
         if not x:
             out.append(y)
         elif not y:
             out.append(x)
+        elif x == y:
+            out.append(x)
         else:
-            return None
+            out.append(frozenset([("or", frozenset([x, y]))]))
     return out
 
 
